@@ -22,7 +22,7 @@ from ..methods import httpMethods
 from .protocols import httpProtocolTypes
 from ..exception import HttpProtocolException
 from ..protocols import httpProtocols
-from ..responses import NOT_FOUND_RESPONSE_PKT
+from ..responses import NOT_FOUND_RESPONSE_PKT, BAD_REQUEST_RESPONSE_PKT
 from ..websocket import WebsocketFrame, websocketOpcodes
 from ...core.event import eventNames
 from ...common.flag import flags
@@ -153,8 +153,15 @@ class HttpWebServerPlugin(HttpProtocolHandlerPlugin):
         self.switched_protocol = httpProtocolTypes.WEBSOCKET
 
     def on_request_complete(self) -> Union[socket.socket, bool]:
-        self.emit_request_complete()
         path = self.request.path or b'/'
+        try:
+            path.decode('utf-8')
+        except UnicodeDecodeError:
+            # Routes and static files are looked up by text, a request
+            # target with raw non UTF-8 bytes cannot name any of them.
+            self.client.queue(BAD_REQUEST_RESPONSE_PKT)
+            return True
+        self.emit_request_complete()
         teardown = self._try_route(path)
         if teardown:
             return teardown
